@@ -4,7 +4,7 @@ from __future__ import annotations
 import time, traceback
 import z3
 from .symexec import Interp, Unsupported, Obligation, SAdt
-from .interp8 import Interp8 as Interp2
+from .interp9 import Interp9 as Interp2
 from .speceval import Val, SpecError
 from .calls import spec_bool, spec_term
 from .vc import discharge, Verdict
